@@ -15,7 +15,14 @@ fn main() {
     let cmd: Vec<&str> = a.iter().map(|s| s.as_str()).collect();
     match cmd.as_slice() {
         ["table", "kmer", ..] => tables::kmer(arg(&a, 2), arg(&a, 3), arg(&a, 4)),
+        ["table", "minimiser", ..] => tables::minimiser(arg(&a, 2), arg(&a, 3), arg(&a, 4), arg(&a, 5), &a[6], false),
+        ["table", "kmermin", ..] => tables::minimiser(arg(&a, 2), arg(&a, 3), arg(&a, 4), arg(&a, 5), &a[6], true),
         ["trace", "kmer", ..] => traces::kmer(arg(&a, 2), arg(&a, 3), arg(&a, 4)),
+        ["trace", "minimiser", ..] => traces::minimiser(arg(&a, 2), arg(&a, 3), arg(&a, 4), false),
+        ["trace", "kmermin", ..] => traces::minimiser(arg(&a, 2), arg(&a, 3), arg(&a, 4), true),
+        ["table", "revcomp", ..] => tables::revcomp(arg(&a, 2)),
+        ["table", "posmap", ..] => tables::posmap(arg(&a, 2)),
+        ["trace", "rc", ..] => traces::rc(arg(&a, 2), arg(&a, 3)),
         ["trace", "kmerbytes"] => traces::kmer_bytes(),
         _ => {
             eprintln!("usage: kvh table kmer <k> <maxlen> <seed> | ...");
